@@ -5,7 +5,7 @@ import random
 
 from harness import gen
 from harness import refcal as R
-from harness.common import DAY, MEANING, cur_mode, err_info, mk_dur, mk_tp, outcome, proj_dur, proj_tp, set_mode, tp_rec
+from harness.common import DAY, MEANING, cur_mode, err_info, mk_dur, mk_tp, outcome, proj_dur, proj_tp, respellings, set_mode, tp_rec
 
 PROP = "C01"
 
@@ -14,6 +14,14 @@ def run_case(case, rec, cid):
     set_mode(case["mode"])
     rec.begin(cid)
     p = mk_tp(case["p"])
+    nt = _one(case, rec, cid, p)
+    if case.get("also") is not None:       # the same instant written differently, same duration, same process
+        for q in respellings(p, random.Random(case["also"])):
+            _one(case, rec, cid, q)
+    return nt
+
+
+def _one(case, rec, cid, p):
     d = mk_dur(case["d"])
     how = case["how"]
     if how == "add":
@@ -40,8 +48,11 @@ def expand(job):
             sp = gen.spelling(rnd)
             m = MEANING[sp]
             frac = rnd.random() < job.get("pfrac", 0.2)
-            yield {"mode": sp, "p": gen.rand_point(rnd, m, whole=not frac), "d": gen.rand_exact_dur(rnd, frac=frac),
-                   "how": rnd.choice(["add", "add", "radd", "sub"])}
+            case = {"mode": sp, "p": gen.rand_point(rnd, m, whole=not frac), "d": gen.rand_exact_dur(rnd, frac=frac),
+                    "how": rnd.choice(["add", "add", "radd", "sub"])}
+            if not frac and case["p"]["hh"] < 24 and abs(case["p"]["y"]) < 900000 and rnd.random() < 0.15:
+                case["also"] = rnd.randrange(10 ** 6)
+            yield case
     elif k == "sweep":      # every day of a year as a start, small steps in both directions
         sp, y = job["mode"], job["y"]
         m = MEANING[sp]
